@@ -238,6 +238,20 @@ type crashUnitObs struct {
 	Blocked bool  `json:"blocked"`     // a status query got no answer in time
 	Results string `json:"results"`    // finished units: "ok" | "short:<n>" | "wrong" | "none"
 	Expect  int64 `json:"expect_out"`  // bytes the unit's command writes in all
+	// a unit reported running after the restart: is the runner process its record names still alive?
+	RunnerAlive bool `json:"runner_alive"`
+}
+
+// crashPidAlive: the process exists and is not a zombie
+func crashPidAlive(pid int) bool {
+	b, err := os.ReadFile(fmt.Sprintf("/proc/%d/stat", pid))
+	if err != nil {
+		return false
+	}
+	// pid (comm) state …: the state letter follows the last ')'
+	t := string(b)
+	i := strings.LastIndex(t, ")")
+	return i >= 0 && i+2 < len(t) && t[i+2] != 'Z' && t[i+2] != 'X'
 }
 
 func crashReadDisk(file string) (string, *StatusFileData) {
@@ -430,6 +444,14 @@ func crashApply(op string, raw json.RawMessage) interface{} {
 			}
 			if ed, ok := rp.Res["ExtraData"].(map[string]interface{}); ok {
 				o.Node, _ = ed["RemoteNode"].(string)
+			}
+			if o.State == WorkStateRunning {
+				var pid int
+				if det, _ := rp.Res["Detail"].(string); det != "" {
+					if _, err := fmt.Sscanf(det, "Running: PID %d", &pid); err == nil && pid > 0 {
+						o.RunnerAlive = crashPidAlive(pid)
+					}
+				}
 			}
 		}
 		o.Results = "none"
